@@ -1861,8 +1861,10 @@ class NoteRestToken(ComplexToken):
         ]
 
         # Deterministic order
+        # sorted() is stable: inside a category (e.g. the duration number, its dots and the grace mark)
+        # the sub-tokens keep the order in which the grammar reads them
         pitch_duration_tokens_sorted = sorted(
-            pitch_duration_tokens, key=lambda t: (t.category.value, t.encoding)
+            pitch_duration_tokens, key=lambda t: t.category.value
         )
         decoration_tokens_sorted = sorted(
             decoration_tokens, key=lambda t: (t.category.value, t.encoding)
